@@ -73,10 +73,15 @@ class CompileError(Exception):
         self.loc_start = loc_start
         self.loc_end = loc_end
 
-        if self.loc_start is None:
-            self.loc_start = getattr(self.node, 'loc_start', None)
-        if self.loc_end is None:
-            self.loc_end = getattr(self.node, 'loc_end', None)
+        # a node without a position of its own (like a literal inside
+        # an exponentiation) is reported at the nearest enclosing
+        # construct that has one
+        node = self.node
+        while self.loc_start is None and node is not None:
+            self.loc_start = getattr(node, 'loc_start', None)
+            if self.loc_end is None:
+                self.loc_end = getattr(node, 'loc_end', None)
+            node = getattr(node, 'parent', None)
 
     def __repr__(self):
         return self.msg
